@@ -37,13 +37,13 @@ var (
 var (
 	probe      []string
 	chainOps   = []string{"*", "and", "or", "unless"}
-	chainRight = []string{"bar", "sum(bar)", "sum by(a) (bar)", "vector(1)"}
+	chainRight = []string{"bar", "sum(bar)", "sum by(a) (bar)", "vector(1)", "sum by(a, b) (bar)"}
 	orAlts     = []string{"foo", `foo{a="x"}`, "sum(foo)", "sum by(a) (foo)", "vector(1)"}
 	orRight    = []string{"bar", `bar{a="x"}`, "sum(bar)", "sum by(a) (bar)", "vector(1)"}
 	reOps      = []string{"and", "unless", "*", "or"}
 	reMod1     = []string{"", "on(a)", "ignoring(b)", "on(a, a)"}
 	reAgg      = []string{"sum without(a) (%s)", "sum without(a, a) (%s)", "sum by(b) (%s)", "sum by(b, b) (%s)", "sum by(a, b) (%s)", "min without(a, c) (%s)", "sum(%s)"}
-	reMod2     = []string{"on(b) group_left(a)", "on(b) group_left(a, a)", "ignoring(a) group_left(a)", "ignoring(a, a) group_left(a)", "ignoring(a, c) group_left(a)", "on(b) group_left()", "on(b, b) group_left(a)", "on(b) group_right(a)"}
+	reMod2     = []string{"on(b) group_left(a)", "on(b) group_left(a, a)", "ignoring(a) group_left(a)", "ignoring(a, a) group_left(a)", "ignoring(a, c) group_left(a)", "on(b) group_left()", "on(b, b) group_left(a)", "on(b) group_right(a)", "on(b) group_left(a, c)", "on(b) group_left(c, a)"}
 	reSel3     = []string{"foo", "bar", `foo{a="x"}`}
 )
 
